@@ -213,6 +213,7 @@ type Run struct {
 	leadMu sync.Mutex
 	Lead   []string
 	cReuse, hReuse *tpb.Message // receive destinations with Script.ReuseDest
+	bg             sync.WaitGroup // goroutines started by "bg-sends"
 	// AfterOpen, if set, runs in the caller's goroutine straight after NewStream returned.
 	AfterOpen func()
 	// OnHandler, if set, runs inside the handler before its script (probes).
@@ -682,11 +683,32 @@ func (r *Run) runHandlerOps(ctx context.Context, stream grpc.ServerStream) {
 			r.rec(Event{Who: "h", Op: "waitctx", Call: true})
 			<-ctx.Done()
 			r.rec(Event{Who: "h", Op: "waitctx", Err: ctx.Err()})
+		case "bg-sends":
+			// a second goroutine of the handler pushes three copies of the message while the handler itself goes
+			// on with its next operations (a full-duplex handler); the handler waits for it before returning
+			if stream == nil {
+				continue
+			}
+			msg := op.Msg
+			r.bg.Add(1)
+			go func() {
+				defer r.bg.Done()
+				for j := 0; j < 3; j++ {
+					r.rec(Event{Who: "hb", Op: "send", Call: true, Msg: msg})
+					var err error
+					pan := guard(func() { err = stream.SendMsg(msg) })
+					r.rec(Event{Who: "hb", Op: "send", Msg: msg, Err: err, Pan: pan})
+					if err != nil || pan != "" {
+						return
+					}
+				}
+			}()
 		default:
 			panic("bad handler op " + op.Op)
 		}
-	}
-}
+		}
+		r.bg.Wait()
+		}
 
 // ---------------------------------------------------------------------------
 // Client actor
